@@ -127,7 +127,7 @@ package transport
 //@   modifies *
 //@   preserves comp(TraditionalDnsConn.res)
 //@   ensures calls(onceDo) == 1
-//@ func (dc *TraditionalDnsConn) CloseWithErr$1 [C07]
+//@ func (dc *TraditionalDnsConn) CloseWithErr$Do [C07]
 //@   requires dc != nil && err != nil
 //@   modifies *
 //@   preserves comp(TraditionalDnsConn.res)
@@ -263,7 +263,7 @@ package transport
 //@   requires c != nil
 //@   modifies *
 //@   ensures calls(onceDo) == 1
-//@ func (c *reusableConn) closeWithErr$1 [C07, C09]
+//@ func (c *reusableConn) closeWithErr$Do [C07, C09]
 //@   requires c != nil && err != nil
 //@   modifies *
 //@   ensures calls(chanClose) == 1 && arg(chanClose, 0, 0) == c.closeNotify && calls(Close) == 1 && arg(Close, 0, 0) == c.c
@@ -274,7 +274,7 @@ package transport
 //@   requires c != nil
 //@   modifies *
 //@   ensures calls(onceDo) == 1
-//@ func (c *reusableConn) closeWithErrByTransport$1 [C07]
+//@ func (c *reusableConn) closeWithErrByTransport$Do [C07]
 //@   requires c != nil && err != nil
 //@   modifies *
 //@   ensures calls(chanClose) == 1 && arg(chanClose, 0, 0) == c.closeNotify && calls(Close) == 1 && arg(Close, 0, 0) == c.c
